@@ -560,6 +560,9 @@ func (g *Graph) guardedBy(site *V, pred func(a Atom) bool, depth int) bool {
 					continue
 				}
 				defs := g.constDefs(obj)
+				if defs == nil && k == 0 && nilable(obj) {
+					defs = g.nilDefs(obj)
+				}
 				if defs == nil {
 					continue
 				}
@@ -719,6 +722,71 @@ func (g *Graph) eachAssign(obj types.Object, f func(rhs ast.Expr)) {
 			}
 		}
 	}
+}
+
+// nilDefs classifies the assignments of a nilable local as nil (0) or
+// non-nil (1): nil literals, fresh allocations, and copies of another local
+// made where that local is known to be non-nil (the shape of an inlined
+// "return nil, err" under "if err != nil").  Any other assignment makes the
+// classification fail (nil result).
+func (g *Graph) nilDefs(obj types.Object) []constDef {
+	var out []constDef
+	for _, v := range g.Vs {
+		var rhs ast.Expr
+		found := false
+		switch s := v.AST.(type) {
+		case *ast.AssignStmt:
+			for i, l := range s.Lhs {
+				if id, ok := ast.Unparen(l).(*ast.Ident); ok && g.Info.ObjectOf(id) == obj {
+					found = true
+					if len(s.Lhs) == len(s.Rhs) {
+						rhs = s.Rhs[i]
+					}
+				}
+			}
+		case *ast.ValueSpec:
+			for i, n := range s.Names {
+				if g.Info.ObjectOf(n) == obj {
+					found = true
+					if len(s.Values) == 0 {
+						out = append(out, constDef{v, 0})
+						found = false
+					} else if len(s.Values) == len(s.Names) {
+						rhs = s.Values[i]
+					}
+				}
+			}
+		}
+		if !found {
+			continue
+		}
+		if rhs == nil {
+			return nil
+		}
+		switch {
+		case IsNil(g.Info, rhs):
+			out = append(out, constDef{v, 0})
+		case isFreshAlloc(g.Info, rhs):
+			out = append(out, constDef{v, 1})
+		default:
+			src := ObjOf(g.Info, rhs)
+			if src == nil {
+				return nil
+			}
+			nonNil := false
+			for _, a := range g.DominatingAtoms(v) {
+				o2, k2, eq2, ok2 := g.flagTest(a)
+				if ok2 && o2 == src && k2 == 0 && !eq2 {
+					nonNil = true
+				}
+			}
+			if !nonNil {
+				return nil
+			}
+			out = append(out, constDef{v, 1})
+		}
+	}
+	return out
 }
 
 // isFreshAlloc: &T{...} or new(T).
